@@ -130,6 +130,14 @@ def _run(env):
             b2, _ = S.parse_sig_packet(bytes(sig))
             if b2[:5 + len(hashed) - 2] != body[1:][:5 + len(hashed) - 2]:
                 ctx.fail('generated-area', 'hashed region changes on re-export', dict(case, reexport=bytes(sig).hex()[:300]))
+        # copies (copy.copy of the signature, as PGPKey.pubkey / key copies make) must hash and export the same received octets
+        import copy as _copy
+        cp = outcome(lambda: _copy.copy(sig))
+        if cp[0] != 'ok' or bytes(cp[1].hashdata(doc)) != want or outcome(lambda: bool(pub.verify(doc, cp[1]))) != ('ok', True):
+            ctx.fail('generated-area', 'a copy of an accepted signature no longer hashes / verifies the received octets', case); continue
+        b3, _ = S.parse_sig_packet(bytes(cp[1]))
+        if b3[:5 + len(hashed) - 2] != body[1:][:5 + len(hashed) - 2]:
+            ctx.fail('generated-area', 'hashed region changes when a copy is exported', case); continue
         accepted.append((pkt, body, hashed))
     ctx.notes.append('rejected-by-class: %r' % rejected_by)
 
@@ -143,6 +151,9 @@ def _run(env):
                 mut = bytearray(pkt); mut[pos] ^= 1 << bit
                 o = outcome(lambda: bool(pub.verify(doc, pgpy.PGPSignature.from_blob(bytes(mut)))))
                 ctx.case('bitflip', (pkt[:20], pos, bit), sample={'pos': pos - hdr, 'bit': bit, 'outcome': repr(o)})
+                if o != ('ok', True) and (pos + bit) % 5 == 0:
+                    import copy as _copy
+                    o = outcome(lambda: bool(pub.verify(doc, _copy.copy(pgpy.PGPSignature.from_blob(bytes(mut))))))
                 if o == ('ok', True):
                     ctx.fail('bitflip', 'a signature with a flipped bit in the signed region still verifies',
                              {'op': 'flip', 'sig': pkt.hex(), 'pos': pos, 'bit': bit})
